@@ -481,6 +481,7 @@ rules:
       config:
         expressions:
           - expression: "Request.Body != 7 && Request.URL.Query().size() >= 0 && Request.Cookie('sess') != 'x' && Request.ClientIPAddresses.size() >= 0"
+          - expression: "Request.Header('X-Nets') == '' || '10.1.2.3' in networks(Request.Header('X-Nets')) || Request.Header('X-Nets') != ''"
     - finalizer: header
       config:
         headers:
@@ -522,6 +523,10 @@ func robustRequests(r *simcore.Run, w *worlds) {
 			v := simcore.Pick(s, []string{"", "Basic", "Basic !!!", "Basic " + strings.Repeat("QQ", 3000), "Bearer", "sess", "sess=", "=;=;", "a=b; sess=\xff", "application/json; charset=\x00", "for=\"[::1\"", "::::", "%%%", "text/*;q=abc", "foo", "text/html;q", "image/png", strings.Repeat(",", 500), "\xf0\x28\x8c\x28"}, "header-value")
 			hdr[k] = v
 		}
+		if s.Draw(3, "address-ranges-header") == 2 {
+			// evaluated by the address helpers of the expression language
+			hdr["X-Nets"] = simcore.Pick(s, []string{"10.0.0.0/8", "10.0.0.0/", "300.1.1.1/33", "::/0", "10.0.0.0/8,", "\xff/8"}, "address-range")
+		}
 		path += simcore.Pick(s, []string{"", "", "?a=1&a=2", "?a=%zz", "?;;&&==", "?%00=%ff", "?" + strings.Repeat("k=v&", 2000), "?a[]=1&a[b]=2"}, "query")
 		w.reqMethod = simcore.Pick(s, []string{"", "POST", "PURGE", "get", "PATCH"}, "method")
 		w.reqBody = nil
@@ -538,7 +543,19 @@ func robustRequests(r *simcore.Run, w *worlds) {
 		}
 		var panicked any
 		var ans answer
-		guarded(r, "request "+fmt.Sprintf("%q", trunc(path)), func() { ans, panicked = w.send(entry, path, hdr) })
+		answered := make(chan struct{})
+		go func() {
+			defer close(answered)
+			guarded(r, "request "+fmt.Sprintf("%q", trunc(path)), func() { ans, panicked = w.send(entry, path, hdr) })
+		}()
+		select {
+		case <-answered:
+		case <-time.After(15 * time.Second):
+			// every request gets an answer: one that is still being served after 15 s of wall-clock time (nothing here
+			// waits for a remote party that long) hangs
+			r.Fail("request-never-answered", entry, "the %s entry point did not answer %s %q with headers %q within 15 s", entry, w.reqMethod, trunc(path), fmt.Sprint(hdr))
+			return
+		}
 		r.Logf("req%d %s %s %q headers=%d body=%d %q -> positive=%v status=%s", q, entry, w.reqMethod, trunc(path), len(hdr), len(w.reqBody), hdr["Content-Type"], ans.positive, trunc(ans.status))
 		if ans.positive {
 			r.Count("odd-request-accepted", 1)
